@@ -110,6 +110,8 @@ def _run(ctx, tmp):
             dt = min(max(dt, 1e-4), 100.0)
         else:
             dt = 10 ** rng.uniform(-4, 2)
+        if ctx.hints and rng.random() < 0.1:          # source hints: time steps at / around every new float constant of eqsig/loader.py (and its reciprocal)
+            dt = rng.choice(gen.hint_values(ctx, 1e-4, 100.0, cap=20, maps=(lambda c: c, lambda c: 1 / c)) or [dt])
         kind = rng.choice(['mixed', 'mixed', 'gauss', 'tie', 'tiny', 'big', 'dyadic'])
         label = rng.choice(LABELS) if rng.random() < 0.7 else ''.join(rng.choice('abcXYZ 0123,#.-_()/') for _ in range(rng.randint(0, 25)))
         cases.append((kind, gen_values(rng, n, kind), float(dt), label))
@@ -486,12 +488,16 @@ def _x2_large(ctx, cur, tmp):
     from eqsig import loader
     rng = ctx.rng
     sizes = [rng.choice([32768, 32769, 30000]), rng.choice([50000, 60000, 65536, 65537])] if ctx.tier == 'quick' else [30000, 32768, 32769, 50000, 65536, 65537, 100000, 131073]
+    # source hints: numbers of samples around every new integer constant of eqsig/loader.py; a few samples and the time step at / around every new float constant
+    sizes = sizes + gen.hint_sizes(ctx, lo=121, hi=1000000, cap=6)
+    hvv, hv_dt = gen.hint_values(ctx, -1e6, 1e6, cap=40), gen.hint_values(ctx, 1e-4, 100.0, cap=10, maps=(lambda c: c, lambda c: 1 / c))
     for n in sizes:
         seed = rng.randrange(2 ** 31)
         g = np.random.default_rng(seed)
         kind = rng.choice(['gauss', 'big', 'tie'])
         v = g.standard_normal(n) * 9.81 if kind == 'gauss' else g.choice([-1.0, 1.0], size=n) * (1e6 + g.random(n)) if kind == 'big' else (2 * g.integers(-2000, 2000, size=n) + 1) / 128.0
-        dt = rng.choice([0.005, 0.02, 1.0, 2.5])
+        v[1:1 + len(hvv)] = hvv[:max(0, n - 1)]
+        dt = rng.choice([0.005, 0.02, 1.0, 2.5] + hv_dt)
         label = rng.choice(LABELS)
         m = rng.choice([1.0, -2.5])
         desc = {'generator': 'c16._x2_large', 'kind': kind, 'n': n, 'numpy_seed': seed, 'dt': dt, 'label': label, 'm': m}
